@@ -2077,6 +2077,15 @@ class Interp:
         elif isinstance(target, ast.Subscript):
             base = self.eval(target.value, frame)
             if isinstance(target.slice, ast.Slice):
+                sl = target.slice
+                parts = [None if x is None else _unlin(self.eval(x, frame)) for x in (sl.lower, sl.upper, sl.step)]
+                if isinstance(base, list) and all(x is None or (isinstance(x, int) and not isinstance(x, bool)) for x in parts):
+                    # a concrete list and concrete bounds: the list is changed in place, as in Python
+                    try:
+                        base[slice(*parts)] = self.iterate(v, target)
+                    except ValueError:
+                        raise RaiseEx("ValueError", target)
+                    return
                 raise CannotDecide("slice store")
             idx = _unlin(self.eval(target.slice, frame))
             if isinstance(base, list) and isinstance(idx, int):
